@@ -110,6 +110,13 @@ pub fn long_payloads(tier: Tier, alpha: &[u8]) -> Vec<Vec<u8>> {
             p.extend_from_slice(&[0x00, 0x1b]);
             v.push(p);
         }
+        // a run of four / five 0x1b at every offset (the run ends the payload, or one byte follows):
+        // escape insertion that depends on the position in the payload (block buffering ...)
+        for tail in [&[0x1bu8, 0x1b, 0x1b, 0x1b][..], &[0x1b, 0x1b, 0x1b, 0x1b, 0x55], &[0x1b, 0x1b, 0x1b, 0x1b, 0x1b, 0x00]] {
+            let mut p = filler(0, l - tail.len());
+            p.extend_from_slice(tail);
+            v.push(p);
+        }
     }
     // ALL BYTE VALUES: every payload of length <= 2 over the full byte range, and every byte value
     // at every position of three 8-byte backgrounds (a defect keyed on a byte value outside the
@@ -246,6 +253,7 @@ pub fn c07_payload(p: &[u8], out: &mut Vec<Viol>, counts: &mut Counts) {
         Err(pn) => bad("C05 panic in encode", pn),
     }
     // iterator encoder
+    let mut hint_bad: Option<(usize, usize, Option<usize>, usize)> = None;
     let lim = f.len() + 64;
     let long_poll = p.len() <= 1 || p.len() >= 250 || (p.len() == 5 && p[0] == p[4]);
     if long_poll {
@@ -256,6 +264,12 @@ pub fn c07_payload(p: &[u8], out: &mut Vec<Viol>, counts: &mut Counts) {
         let mut v = Vec::with_capacity(f.len());
         let mut ended = false;
         while v.len() < lim {
+            // the hint must be callable at any time and must bracket what is still to come
+            let (lo, hi) = it.size_hint();
+            let left = f.len().saturating_sub(v.len());
+            if lo > left || hi.map_or(false, |h| h < left) {
+                hint_bad = Some((v.len(), lo, hi, left));
+            }
             match it.next() {
                 Some(b) => v.push(b),
                 None => {
@@ -295,6 +309,9 @@ pub fn c07_payload(p: &[u8], out: &mut Vec<Viol>, counts: &mut Counts) {
         }
         Err(pn) => bad("C05 panic in encode_streaming", pn),
     }
+    if let Some((at, lo, hi, left)) = hint_bad {
+        bad("C07 encode_streaming: size_hint does not bracket the bytes still to come", format!("after {} bytes: hint ({}, {:?}), {} bytes left", at, lo, hi, left));
+    }
     // fixed buffers: OutOfMemory exactly when the frame does not fit
     let fl = f.len();
     let caps: Vec<usize> = if p.len() <= 6 {
@@ -328,6 +345,32 @@ fn hx(b: &[u8]) -> String {
         hex(b)
     } else {
         format!("{}..{} (len {})", hex(&b[..24]), hex(&b[b.len() - 24..]), b.len())
+    }
+}
+
+/// The iterator encoder over inputs that never end or announce a huge length: `size_hint`, `take`,
+/// `chain`, `extend` must return normally and the bytes produced must be the frame's prefix.
+pub fn c07_unbounded(out: &mut Vec<Viol>, counts: &mut Counts) {
+    let pats: [&[u8]; 4] = [&[0x55], &[0x1b], &[0x00, 0x1b, 0x1b, 0x1b, 0x1b], &[0x01, 0x1a]];
+    for (pi, pat) in pats.iter().enumerate() {
+        let prefix_payload: Vec<u8> = pat.iter().copied().cycle().take(400).collect();
+        let want = canon(&prefix_payload);
+        let inputs: Vec<(&str, Box<dyn FnOnce() -> Result<Vec<u8>, String>>)> = vec![
+            ("cycle", Box::new({ let pat = pat.to_vec(); move || guarded(|| { let mut e = encode_streaming(pat.iter().copied().cycle()); let _ = e.size_hint(); e.by_ref().take(300).collect::<Vec<u8>>() }) })),
+            ("repeat-take-usize-max", Box::new({ let pat = pat.to_vec(); move || guarded(|| { let b = pat[0]; let mut e = encode_streaming(std::iter::repeat(b).take(usize::MAX)); let _ = e.size_hint(); let mut v = vec![]; v.extend(e.by_ref().take(300)); if pat.len() == 1 { v } else { vec![] } }) })),
+            ("range-map", Box::new({ let pat = pat.to_vec(); move || guarded(|| { let n = pat.len(); let p2 = pat.clone(); let mut e = encode_streaming((0..usize::MAX).map(move |i| p2[i % n])); let _ = e.size_hint(); let c = e.by_ref().chain(std::iter::once(0xaa)); let _ = c.size_hint(); c.take(300).collect::<Vec<u8>>() }) })),
+        ];
+        for (name, f) in inputs {
+            counts.inc("unbounded-input encoder runs");
+            match f() {
+                Ok(v) => {
+                    if !v.is_empty() && v[..] != want[..v.len().min(want.len())] {
+                        out.push(Viol { class: "C07 encode_streaming over an unbounded input does not produce the frame's prefix".into(), key: format!("unbounded:{}:{}", name, pi), what: format!("got {} want {}", hex(&v[..v.len().min(40)]), hex(&want[..40])), case: J::obj().set("engine", "e2").set("check", "C07u"), size: pi });
+                    }
+                }
+                Err(p) => out.push(Viol { class: "C05 panic in encode_streaming (size_hint / unbounded input)".into(), key: format!("unbounded:{}:{}", name, pi), what: p, case: J::obj().set("engine", "e2").set("check", "C07u"), size: pi }),
+            }
+        }
     }
 }
 
@@ -512,6 +555,22 @@ pub fn replay(case: &J) -> Vec<Viol> {
     let mut c = Counts::default();
     match case.get("check").and_then(|x| x.as_str()) {
         Some("C07") => c07_payload(&p, &mut out, &mut c),
+        Some("C07u") => c07_unbounded(&mut out, &mut c),
+        Some("C05fe") => {
+            // all front-ends on the canonical frame of a long payload: no panic, no hang
+            let f = canon(&p);
+            let mut trs = run_frontends(BufKind::Vec, &f, FeSet::All);
+            if p.len() > 8192 && p.len() <= 65537 {
+                trs.extend(run_frontends(BufKind::Arr(65537), &f, FeSet::Core));
+            }
+            for tr in trs {
+                for e in &tr.events {
+                    if matches!(e, Ev::Panic(_) | Ev::Hang) {
+                        out.push(Viol { class: "C05 front-end panics or hangs".into(), key: format!("long-payload:{}", tr.name), what: e.short(), case: case.clone(), size: p.len() });
+                    }
+                }
+            }
+        }
         Some("C01") => c01_payload(&p, &mut out, &mut c),
         Some("C16") => {
             c16_payload(&p, &mut out, &mut c);
@@ -611,6 +670,13 @@ pub fn run(prop: &str, tier: Tier) -> ! {
     let longs = if prop == "C16" { vec![] } else { long_payloads(tier, &alpha) };
     ctx.log(&format!("payloads over {:02x?} up to length {} ({}), plus {} long payloads", alpha, n_short, count_upto(alpha.len() as u64, n_short), longs.len()));
     let mut all = sweep(&alpha, n_short, &longs, f);
+    if prop == "C07" {
+        let mut out = vec![];
+        c07_unbounded(&mut out, &mut all.counts);
+        for v in out {
+            all.tally.add(v);
+        }
+    }
     if prop == "C16" {
         let mut out = vec![];
         c16_default_buffer(&mut out, &mut all.counts);
